@@ -37,9 +37,17 @@ PARTIAL = {
                           "for it (depth_ge_true_minus_tol / residual_le_tol assume i.exit = 0); depth_nonneg, "
                           "direction_unit_or_zero, contact_bary do cover it",
     "degenerate_portal": "final portal triangle of zero area (norm_vector returns the zero vector, _portal_reach_tolerance "
-                         "is then trivially true): the accuracy theorems assume Nondegenerate i.portal; reachable through "
-                         "the view-swap (_swap_vertices copies row 2 into row 1) together with the iteration cap of "
-                         "_discover_portal, seen only with max_iterations <= 3",
+                         "is then trivially true): the accuracy theorems (depth_ge_true_minus_tol, residual_le_tol) "
+                         "assume Nondegenerate i.portal. Reachable with the DEFAULT max_iterations: the regression scene "
+                         "F-mpr-degenerate-portal-nan (exactly touching box / mesh) runs _discover_portal into its cap and gets a "
+                         "portal with v[1] == v[3] (C02 mpr_iteration_cap_exit describes that portal). What IS proved there "
+                         "since the repair 045c18e: contact_position_total (no division by zero any more), "
+                         "contact_degenerate_portal (branch 2: the position is the midpoint of the pre-images a in A, b in B of "
+                         "the portal row closest to the origin, within |v|/2 of both colliders, in A and B when that row is "
+                         "the origin), degenerate_portal_before_after (exact portal: divZero before, touching point after); "
+                         "depth_nonneg / direction_unit_or_zero / contact_bary hold as before. NOT proved: that the closest "
+                         "row of a degenerate portal is near the origin (true for the witness: |v[2]| = 2e-15), i.e. no "
+                         "accuracy statement for depth or position in terms of the true contact",
     "origin_in_portal_tetrahedron": "that the barycentric weights of _contact_position are non-negative (the origin stays "
                                     "inside the tetrahedron v0 v1 v2 v3 through _refine_portal/_find_penetration_info) is a "
                                     "hypothesis of contact_exact_of_nonneg_weights, not proved — and false for exactly "
@@ -67,6 +75,8 @@ ASSUMPTIONS = [
     "exact real arithmetic: rounding is not modelled; the 2e-3*L of the property is met by mpr_tolerance + 2*EPSILON "
     "(regenerated constants) with a factor 20 to spare, which is the allowance for rounding",
     "`x == 0.0` is modelled as isZero (IEEE); NaN inputs are outside the domain",
+    "model = /repo at or after 045c18e (_contact_position with the degenerate-portal branch); the function before that "
+    "commit is kept as contactPosition_asIs_before_fix for the before/after theorems only",
 ]
 TRUSTED = ["mpr.py is modelled in full except mpr_intersection (C02); of minkowski.py support_function/make_support_point; of "
            "distance/_triangle.py point_to_triangle; utils.norm_vector",
@@ -77,13 +87,16 @@ MANIFEST = dict(
           "iterations): depth_nonneg, direction_unit_or_zero, depth_ge_true_minus_tol and residual_le_tol for the tolerance "
           "exit in every Voronoi region of the closest point (bounds mpr_tolerance + 2*EPSILON from the regenerated "
           "constants, below 2e-3*L), face_region_direction, touch_and_segment_cases, contact_bary, "
-          "contact_exact_of_nonneg_weights, find_penetration_info_terminates, and segment_contact_asIs_counterexample (the "
+          "contact_exact_of_nonneg_weights, contact_degenerate_portal / contact_position_total / "
+          "degenerate_portal_before_after (repair 045c18e of the NaN contact position on degenerate portals), "
+          "find_penetration_info_terminates, and segment_contact_asIs_counterexample (the "
           "unchanged code reports a contact position outside a collider); the model is compared step-wise with every "
           "module-level function of distance3d.mpr on recorded traces and end-to-end with trace-fed supports; rigorous "
           "two-sided depth oracle on the real code."),
     note=("trusted: Lean kernel + Mathlib, axioms propext/Classical.choice/Quot.sound; exact-real semantics; support "
           "oracle contract (C03) assumed; partial: iteration-cap exit, degenerate final portal, non-negativity of the "
-          "barycentric weights, termination of the uncapped _refine_portal; two known findings on the contact position."),
+          "barycentric weights, termination of the uncapped _refine_portal; two known findings on the contact position; "
+          "one fixed finding (F-mpr-degenerate-portal-nan, 045c18e) replayed first on every run."),
     technique="Lean 4 proof (S2, abstract support oracle) on hand-written model + step-wise trace correspondence",
     design="§7 C08")
 LEAN_TARGETS = []
@@ -721,7 +734,10 @@ def classify(calls):
                  np.cross(v[0], v[1]).dot(v[3]), np.cross(v[2], v[1]).dot(v[0])]
             s = sum(b)
             if s < np.finfo(float).eps:
-                out["contact"] = "fallback"
+                dd = c["in"][3]
+                fb = [0.0, np.cross(v[2], v[3]).dot(dd), np.cross(v[3], v[1]).dot(dd), np.cross(v[1], v[2]).dot(dd)]
+                # 045c18e: `abs(coords_sum) < EPSILON` inside the fallback = degenerate portal
+                out["contact"] = "degenerate" if abs(sum(fb)) < np.finfo(float).eps else "fallback"
             else:
                 out["contact"] = "main" if min(b) >= -1e-12 * abs(s) else "main-negative-weight"
         elif c["fn"] == "_penetration_info":
@@ -1083,30 +1099,52 @@ def add_steps(st, scene, calls, res, kw):
         elif fn == "_contact_position":
             v, v1, v2, d = c["in"]
 
-            def chk(r, v=v, v1=v1, c=c):
+            def chk(r, v=v, v1=v1, c=c, d=d):
                 pos_i = c["out"]
                 sc3 = scale_of(v) ** 3
+                sc2 = scale_of(v) ** 2 * scale_of(d)
+
+                def near_threshold(s, s2):
+                    """a decisive sum sits within rounding of its EPSILON threshold"""
+                    return abs(s - EPSF) <= 1e-9 * sc3 or (s2 is not None and abs(abs(s2) - EPSF) <= 1e-9 * sc2)
+
                 if not np.all(np.isfinite(pos_i)):
-                    ctx.branch("_contact_position", "divZero")
+                    ctx.branch("_contact_position", "non-finite")
                     if r.err == "divZero":
                         return None
-                    s = h2f(r.t[2])
-                    return "tie" if abs(s - EPSF) <= 1e-9 * sc3 else "impl non-finite, model %s" % " ".join(r.t[:3])
+                    rr = Rd(" ".join(r.t))
+                    br, s = rr.int(), rr.f()
+                    rr.v3()
+                    [rr.f() for _ in range(4)]
+                    s2 = rr.f()
+                    if near_threshold(s, s2):
+                        return "tie"
+                    return ("impl non-finite, model branch %d (a NaN position on a degenerate portal is the behaviour "
+                            "before the repair 045c18e, finding F-mpr-degenerate-portal-nan)" % br)
                 if not r.ok:
                     s = h2f(r.t[2])
-                    return "tie" if abs(s - EPSF) <= 1e-9 * sc3 else "model %s, impl %s" % (" ".join(r.t[:3]), pos_i)
+                    return "tie" if near_threshold(s, None) else "model %s, impl %s" % (" ".join(r.t[:3]), pos_i)
                 br = r.int()
                 s = r.f()
                 pos = r.v3()
                 w = [r.f() for _ in range(4)]
+                s2 = r.f()
+                k = r.int()
                 ctx.branch("_contact_position", br)
                 if close(pos, pos_i, CORR * scale_of(v1, c["in"][2])):
                     return None
+                if near_threshold(s, s2 if s < EPSF + 1e-9 * sc3 else None):
+                    return "tie"
+                if br == 2:
+                    # the scan for the closest row: (nearly) equal |v|^2 may select another row
+                    n2 = sorted(float(v[i].dot(v[i])) for i in (1, 2, 3))
+                    if n2[1] - n2[0] <= 1e-9 * scale_of(v) ** 2:
+                        return "tie"
+                    return "impl %s model %s (degenerate branch, closest row %d)" % (pos_i, pos, k)
                 # conditioning: the weights are ratios of 3x3 determinants
-                big = sc3 / max(abs(s), 1e-300)
+                big = sc3 / max(abs(s), 1e-300) if br == 0 else sc2 / max(abs(s2), 1e-300)
                 amp = 1 + big * (1 + max(abs(x) for x in w))
-                if (close(pos, pos_i, (CORR + 64 * EPSF * amp) * scale_of(v1, c["in"][2]))
-                        or abs(s - EPSF) <= 1e-9 * sc3):
+                if close(pos, pos_i, (CORR + 64 * EPSF * amp) * scale_of(v1, c["in"][2])):
                     return "tie"
                 return "impl %s model %s (branch %d, sum %r)" % (pos_i, pos, br, s)
             st.add("C08.contact_position", eportal(v, v1, v2) + ev(d), chk, seed)
@@ -1313,8 +1351,19 @@ def correspondence(ctx):
     ctx.extra["ties"] = st.ties
 
 
+# F-mpr-degenerate-portal-nan (fixed by /repo 045c18e): an exactly touching box / 4-vertex mesh pair on which
+# _discover_portal runs into its iteration cap (100 passes of _iterate_discover_portal) and declares a portal with a
+# repeated vertex (v[1] == v[3]) built while v[2] is the origin up to 2e-15; both barycentric weight sums of
+# _contact_position vanish and the position was 0/0 = NaN.  Found by the thorough C08 search; runs first on every run.
+REGRESSION_DEGENERATE_PORTAL = {
+    "a": {"type": "box", "R": [[0.9639938490441047, -0.2548393455649372, 0.07597872700411926], [-0.25563271992775277, -0.9667736868329475, 0.0007422599072390498], [0.07326507699764648, -0.02013818262568169, -0.9971091625760262]], "t": [0.0, 0.0, 0.0], "size": [0.07597102087503584, 0.033133629372878046, 0.04656290193520898]},
+    "b": {"type": "mesh", "R": [[0.6983645544100368, 0.6382316045719925, 0.3239558119082457], [-0.46904793457305294, 0.06621869929583912, 0.8806867314410503], [0.5406301732389933, -0.7669912012461599, 0.34560600833108945]], "t": [0.214889105801495, -0.03161156852092972, -0.16198327630606535], "vertices": [[-0.13976063647222456, 0.0012673518799645475, 0.15453231058425626], [-0.1866220073105435, -0.10435528999031593, 0.21304289873168133], [-0.038754085013119804, -0.25413833134607755, 0.041503401495859196], [0.2558050476495335, 0.020557058567527004, -0.10488471710539338]], "triangles": [[2, 3, 1], [0, 1, 3], [0, 2, 1], [0, 3, 2]]},
+    "placement": "regression:F-mpr-degenerate-portal-nan", "stream": "R", "n": [0.0, 0.0, 0.0], "target": 0.0}
+
+
 def corpus_scenes():
-    return []
+    """minimised past failures; run first (correspondence on their traces, then the oracle)"""
+    return [{k: (dict(v) if isinstance(v, dict) else v) for k, v in REGRESSION_DEGENERATE_PORTAL.items()}]
 
 
 # =============================================================================== failing-input search
@@ -1462,6 +1511,16 @@ def search(ctx):
     ctx.rng.shuffle(pairs)
     stats = {"intersections": 0, "misses": 0, "violations": 0, "missed_overlap": 0}
     minimised = 0
+    for scene in corpus_scenes():
+        # fixed findings: the witness must now give a finite result that satisfies the whole property
+        res, calls = traced_mpr(scene["a"], scene["b"])
+        bad, info = check_scene(scene, res)
+        cl = classify(calls)
+        ctx.count("search:regression", key=repr((clean(scene["a"]), clean(scene["b"]))))
+        ctx.branch("regression", "%s/contact-%s/discover-%d" % (
+            scene["placement"].split(":")[1], cl["contact"],
+            sum(1 for c in calls if c["fn"] == "_iterate_discover_portal")))
+        report(ctx, scene, {}, bad, info)
     for scene in known_witness_scenes():
         bad, info = check_scene(scene)
         ctx.count("search:witness", key=repr((clean(scene["a"]), clean(scene["b"]))))
